@@ -879,6 +879,11 @@ def _concrete_str_method(name):
             return r
         sym = SYM_STR_METHODS.get(name)
         if sym is None:
+            ext = getattr(I, 'extra_methods', None)
+            if ext is not None:
+                r = ext(I, s, name, lineno)
+                if r is not None:
+                    return r.fn(*args, **kwargs)
             raise Unsupported(f'str.{name} on symbolic string')
         return sym(I, s, lineno, *args, **kwargs)
     return m
